@@ -397,6 +397,10 @@ pub fn corrupt(cfg: &Cfg, c: &Corruption) -> Option<Vec<String>> {
             if c.min == 0 {
                 return None;
             }
+            if c.min >= 2 && c.text().len() % 2 == 1 {
+                // (.f x ..): the input is the implied first argument
+                return Some(format!("(.{} {})", c.name, c.args.iter().skip(1).take(c.min - 2).cloned().collect::<Vec<_>>().join(" ")));
+            }
             Some(format!("({} {})", c.name, c.args.iter().take(c.min - 1).cloned().collect::<Vec<_>>().join(" ")))
         }),
         Corruption::ArityHigh(s) => with_call(s, &|c| {
@@ -407,7 +411,12 @@ pub fn corrupt(cfg: &Cfg, c: &Corruption) -> Option<Vec<String>> {
             while a.len() <= c.max {
                 a.push("1".into());
             }
-            Some(format!("({} {})", c.name, a.join(" ")))
+            // half of the time in the (.f x ..) form, where the input is the implied first argument
+            if c.text().len() % 2 == 1 {
+                Some(format!("(.{} {})", c.name, a[1..].join(" ")))
+            } else {
+                Some(format!("({} {})", c.name, a.join(" ")))
+            }
         }),
         Corruption::MissingParen(s) => with_call(s, &|c| {
             let t = c.text();
